@@ -57,8 +57,8 @@ Proof.
 Qed.
 
 (* what an accepted dual proof has checked *)
-Lemma verify_dual_proof_inv p src tgt salh talh :
-  verify_dual_proof H (Some p) src tgt salh talh = Ok true ->
+Lemma verify_dual_proof_gen_inv repaired p src tgt salh talh :
+  verify_dual_proof_gen H repaired (Some p) src tgt salh talh = Ok true ->
   exists sh th,
     dp_src p = Some sh /\ dp_tgt p = Some th /\ h_id sh = src /\ h_id th = tgt /\
     src <> 0 /\ src <= tgt /\ alh H sh = Ok salh /\ alh H th = Ok talh /\
@@ -71,7 +71,7 @@ Lemma verify_dual_proof_inv p src tgt salh talh :
     (0 < h_bltxid th ->
        verify_last_inclusion H (dp_last p) (h_bltxid th) (leaf_for H (dp_tblalh p)) (h_blroot th) = true).
 Proof.
-  intros V. unfold verify_dual_proof in V.
+  intros V. unfold verify_dual_proof_gen in V.
   destruct (dp_src p) as [sh|]; [|discriminate].
   destruct (dp_tgt p) as [th|]; [|discriminate].
   destruct (N.eqb_spec (h_id sh) src) as [Is|]; [|discriminate].
@@ -112,20 +112,24 @@ Proof.
       destruct (N.ltb_spec 0 (h_bltxid th)) as [Pt|Zt]; cbn [andb] in V.
       * destruct (verify_last_inclusion H (dp_last p) (h_bltxid th) (leaf_for H (dp_tblalh p)) (h_blroot th)) eqn:Vl;
           cbn [negb] in V; [|discriminate].
+        destruct (repaired && (src =? h_bltxid th) && negb (bytes_eqb (dp_tblalh p) salh)); [discriminate|].
         destruct (verify_linear_proof H (dp_lin p) src tgt salh talh) eqn:Vlin;
           cbn [negb] in V; [|discriminate].
         repeat split; auto; try lia; intros; lia.
-      * destruct (verify_linear_proof H (dp_lin p) src tgt salh talh) eqn:Vlin;
+      * destruct (repaired && (src =? h_bltxid th) && negb (bytes_eqb (dp_tblalh p) salh)); [discriminate|].
+        destruct (verify_linear_proof H (dp_lin p) src tgt salh talh) eqn:Vlin;
           cbn [negb] in V; [|discriminate].
         repeat split; auto; try lia; intros; lia.
     + cbn [bind negb] in V.
       destruct (N.ltb_spec 0 (h_bltxid th)) as [Pt|Zt]; cbn [andb] in V.
       * destruct (verify_last_inclusion H (dp_last p) (h_bltxid th) (leaf_for H (dp_tblalh p)) (h_blroot th)) eqn:Vl;
           cbn [negb] in V; [|discriminate].
+        destruct (repaired && (src =? h_bltxid th) && negb (bytes_eqb (dp_tblalh p) salh)); [discriminate|].
         destruct (verify_linear_proof H (dp_lin p) src tgt salh talh) eqn:Vlin;
           cbn [negb] in V; [|discriminate].
         repeat split; auto; try lia; intros; lia.
-      * destruct (verify_linear_proof H (dp_lin p) src tgt salh talh) eqn:Vlin;
+      * destruct (repaired && (src =? h_bltxid th) && negb (bytes_eqb (dp_tblalh p) salh)); [discriminate|].
+        destruct (verify_linear_proof H (dp_lin p) src tgt salh talh) eqn:Vlin;
           cbn [negb] in V; [|discriminate].
         repeat split; auto; try lia; intros; lia.
 Qed.
@@ -162,16 +166,16 @@ Proof.
 Qed.
 
 (* TAMPER EVIDENCE, VerifyDualProof: the trusted side is the target (a state of the history) *)
-Theorem dual_proof_sound_wrt_history hs p src tgt salh sh th tg :
+Theorem dual_proof_gen_sound_wrt_history repaired hs p src tgt salh sh th tg :
   wf_hist H hs ->
   tx_at hs tgt = Some tg ->
   dp_src p = Some sh -> dp_tgt p = Some th -> hdr_valid sh = true -> hdr_valid th = true ->
   len32 (dp_incl p) ->
-  verify_dual_proof H (Some p) src tgt salh (alh_v H tg) = Ok true ->
+  verify_dual_proof_gen H repaired (Some p) src tgt salh (alh_v H tg) = Ok true ->
   (exists g, tx_at hs src = Some g /\ hashed_fields sh = hashed_fields g /\ salh = alh_v H g) \/ Collision.
 Proof.
   intros W Tt Ps Pt Vs Vt F V.
-  apply verify_dual_proof_inv in V
+  apply verify_dual_proof_gen_inv in V
     as (sh' & th' & Ps' & Pt' & Is & It & S0 & Le & Ea & Eb & Cincl & Clin & _ & _).
   rewrite Ps in Ps'. rewrite Pt in Pt'. injection Ps' as <-. injection Pt' as <-.
   apply alh_ok in Ea as [Ea _]. apply alh_ok in Eb as [Eb _].
@@ -194,6 +198,24 @@ Proof.
     left. exists (hd_at hs src). auto.
 Qed.
 
+
+Theorem dual_proof_sound_wrt_history hs p src tgt salh sh th tg :
+  wf_hist H hs ->
+  tx_at hs tgt = Some tg ->
+  dp_src p = Some sh -> dp_tgt p = Some th -> hdr_valid sh = true -> hdr_valid th = true ->
+  len32 (dp_incl p) ->
+  verify_dual_proof H (Some p) src tgt salh (alh_v H tg) = Ok true ->
+  (exists g, tx_at hs src = Some g /\ hashed_fields sh = hashed_fields g /\ salh = alh_v H g) \/ Collision.
+Proof. unfold verify_dual_proof. apply dual_proof_gen_sound_wrt_history. Qed.
+
+Theorem dual_proof_repaired_sound_wrt_history hs p src tgt salh sh th tg :
+  wf_hist H hs ->
+  tx_at hs tgt = Some tg ->
+  dp_src p = Some sh -> dp_tgt p = Some th -> hdr_valid sh = true -> hdr_valid th = true ->
+  len32 (dp_incl p) ->
+  verify_dual_proof_gen H true (Some p) src tgt salh (alh_v H tg) = Ok true ->
+  (exists g, tx_at hs src = Some g /\ hashed_fields sh = hashed_fields g /\ salh = alh_v H g) \/ Collision.
+Proof. apply dual_proof_gen_sound_wrt_history. Qed.
 
 (* TAMPER EVIDENCE, VerifyDualProofV2 (sourceTxID < targetTxID; for sourceTxID = targetTxID the
    verifier compares neither the two headers nor the two Alh values with each other, see
